@@ -21,12 +21,15 @@ func (t *Dense) T(axes ...int) (err error) {
 			return
 		}
 
-		// check if the current axes are just a reverse of the previous transpose's
-		isReversed := true
-		for i, s := range t.oshape() {
-			if transform.Shape()[i] != s {
-				isReversed = false
-				break
+		// check if the current axes undo the previous transpose's, i.e. the two compose to the identity
+		// (comparing shapes is not enough: every permutation of a (3,3,3) tensor has the same shape)
+		isReversed := len(axes) == len(t.transposeWith)
+		if isReversed {
+			for i, a := range axes {
+				if t.transposeWith[a] != i {
+					isReversed = false
+					break
+				}
 			}
 		}
 
@@ -37,7 +40,14 @@ func (t *Dense) T(axes ...int) (err error) {
 		}
 
 		// cool beans. No funny reversals. We'd have to actually do transpose then
-		t.Transpose()
+		if err = t.Transpose(); err != nil {
+			return err
+		}
+
+		// the data has moved and the strides are the default ones again: the transform has to be recomputed
+		if transform, axes, err = t.AP.T(axes...); err != nil {
+			return handleNoOp(err)
+		}
 	}
 
 	// swap out the old and the new
